@@ -42,6 +42,9 @@ func (sc *sliceContainers) Put(key uint64, c *Container) {
 		sc.insertAt(key, c, -i-1)
 	} else {
 		sc.containers[i] = c
+		if key == sc.lastKey {
+			sc.lastContainer = c
+		}
 	}
 
 }
@@ -65,6 +68,9 @@ func (sc *sliceContainers) PutContainerValues(key uint64, typ byte, n int, mappe
 		c.setN(int32(n))
 		c.setMapped(mapped)
 		sc.containers[i] = c
+		if key == sc.lastKey {
+			sc.lastContainer = c
+		}
 	}
 
 }
@@ -206,6 +212,9 @@ func (sc *sliceContainers) Update(key uint64, fn func(*Container, bool) (*Contai
 		nc, write = fn(sc.containers[i], true)
 		if write {
 			sc.containers[i] = nc
+			if key == sc.lastKey {
+				sc.lastContainer = nc
+			}
 		}
 	} else {
 		nc, write = fn(nil, false)
@@ -225,6 +234,9 @@ func (sc *sliceContainers) UpdateEvery(fn func(uint64, *Container, bool) (*Conta
 		nc, write := fn(sc.keys[i], c, true)
 		if write {
 			sc.containers[i] = nc
+			if sc.keys[i] == sc.lastKey {
+				sc.lastContainer = nc
+			}
 		}
 	}
 }
